@@ -4,6 +4,7 @@ package main
 
 import (
 	"go/ast"
+	"go/constant"
 	"go/token"
 	"go/types"
 	"strings"
@@ -279,7 +280,7 @@ func checkNoSharedHasher(c *Ctx, rule string) {
 	c.Check(rule, "module|no package-level hasher or buffer", token.NoPos, bad == 0 && ctl && nvars >= 50, "%d of %d package-level variables hold a running hash or buffer (control: NewHashFile's local hasher recognised: %v)", bad, nvars, ctl)
 }
 
-// R02s: each side is normalised from itself.
+// R02u: each side is normalised from itself.
 const ruleTextNormaliseOwnSide = "each side is normalised by looking at that side only: in the differ files, in a function with a pair of parameters named from/to (or a/b-style pairs of the same type), an `if` whose body only assigns one of the two parameters tests only that parameter — `if to == \"\" || from == Restrict { to = NoAction }` leaves a RESTRICT on the desired side unfolded, and a schema compared with itself (or with its NO ACTION spelling) reports a foreign-key change that nobody made"
 
 func checkNormaliseOwnSide(c *Ctx, rule string) {
@@ -463,4 +464,107 @@ func checkTrimSelfCutset(c *Ctx, rule string) {
 		}
 	})
 	c.Check(rule, "module|no cutset mentions its subject", token.NoPos, n >= 5, "only %d strings.Trim/TrimLeft/TrimRight calls found in the module (expected at least 5): the rule no longer sees the calls it is about", n)
+}
+
+// R03t: the SQLite inspector takes both of SQLite's string quotes for a literal.
+const ruleTextSqliteDefaultQuotes = "reader/engine agreement on string defaults (SQLite inspector): defaultExpr classifies a stored default as a literal through sqlx.IsQuoted with BOTH quote characters SQLite accepts for strings (' and the legacy \"); with one of them missing, `DEFAULT \"active\"` is inspected as a raw expression, exported as DEFAULT (\"active\") and rejected by an empty database (`default value of column is not constant`), so the SQL export no longer recreates the database"
+
+func checkSqliteDefaultQuotes(c *Ctx, rule string) {
+	fi := c.Func(rule, pSqlite, "", "defaultExpr")
+	if fi == nil {
+		return
+	}
+	have := map[int64]bool{}
+	var pos token.Pos = fi.Decl.Pos()
+	visit := func(f *FuncInfo) {
+		for _, call := range callsIn(f.Decl.Body, true) {
+			fn := calleeOf(f.Info(), call)
+			if fn == nil || !funcIs(fn, pSqlx, "", "IsQuoted") {
+				continue
+			}
+			pos = call.Pos()
+			for _, a := range call.Args[1:] {
+				if tv, ok := f.Info().Types[a]; ok && tv.Value != nil {
+					if v, ok := constantInt64(tv.Value); ok {
+						have[v] = true
+					}
+				}
+			}
+		}
+	}
+	visit(fi)
+	// package-local helpers it calls (a predicate extracted from the case list)
+	for _, call := range callsIn(fi.Decl.Body, true) {
+		if fn := calleeOf(fi.Info(), call); fn != nil && fn.Pkg() != nil && fn.Pkg().Path() == pSqlite {
+			if hf := c.FuncInfoOf(fn); hf != nil && hf.Decl.Body != nil && hf.Obj != fi.Obj {
+				visit(hf)
+			}
+		}
+	}
+	if len(have) == 0 {
+		c.Unresolved(rule, "sqlx.IsQuoted call in sqlite.defaultExpr")
+		return
+	}
+	c.Check(rule, fi.Name+"|literal for both ' and \" quoted defaults", pos, have['\''] && have['"'], "%s recognises quoted defaults for the quote characters %v only: SQLite stores string defaults written with ' and with \", and the one that is not recognised is exported as an expression default the engine rejects", fi.Name, quoteSet(have))
+}
+
+func quoteSet(m map[int64]bool) []string {
+	var out []string
+	for _, q := range []int64{'\'', '"', '`'} {
+		if m[q] {
+			out = append(out, string(rune(q)))
+		}
+	}
+	return out
+}
+
+// R06l: the sum file is read whole.
+const ruleTextSumReadWhole = "the stored sum is read in full: no function of sql/migrate wraps a reader in io.LimitReader / io.LimitedReader or copies a bounded amount (io.CopyN, io.ReadFull, io.ReadAtLeast) — readHashFile hands the whole atlas.sum to UnmarshalText; a cap on the bytes read makes the stored sum of a large directory (≈ 12 000 files ≈ 1 MiB) end mid-line, and an untouched, freshly hashed directory fails validation"
+
+func checkSumReadWhole(c *Ctx, rule string) {
+	n, readers := 0, 0
+	c.AllFuncs(false, func(fi *FuncInfo) {
+		if fi.Pkg.PkgPath != pMigrate || fi.Decl.Body == nil {
+			return
+		}
+		info := fi.Info()
+		for _, call := range callsIn(fi.Decl.Body, true) {
+			fn := calleeOf(info, call)
+			if fn == nil || fn.Pkg() == nil || fn.Pkg().Path() != "io" {
+				continue
+			}
+			switch fn.Name() {
+			case "ReadAll":
+				readers++
+			case "LimitReader", "CopyN", "ReadFull", "ReadAtLeast":
+				n++
+				c.funcs[fi.Name] = true
+				c.Check(rule, fi.Name+"|io."+fn.Name(), call.Pos(), false, "%s reads through io.%s: a file of the migration directory (or its sum file) longer than the bound is cut short, and the directory no longer validates against the sum Atlas itself wrote", fi.Name, fn.Name())
+			}
+		}
+		ast.Inspect(fi.Decl.Body, func(m ast.Node) bool {
+			if cl, ok := m.(*ast.CompositeLit); ok && typeIs(derefType(info.TypeOf(cl)), "io", "LimitedReader") {
+				n++
+				c.Check(rule, fi.Name+"|io.LimitedReader", cl.Pos(), false, "%s builds an io.LimitedReader: bounded read of a directory file", fi.Name)
+			}
+			return true
+		})
+	})
+	rh := c.Func(rule, pMigrate, "", "readHashFile")
+	whole := false
+	if rh != nil {
+		for _, call := range callsIn(rh.Decl.Body, true) {
+			if fn := calleeOf(rh.Info(), call); fn != nil && fn.Pkg() != nil && (fn.Pkg().Path() == "io" && fn.Name() == "ReadAll" || fn.Pkg().Path() == "os" && fn.Name() == "ReadFile" || fn.Pkg().Path() == "io/fs" && fn.Name() == "ReadFile") {
+				whole = true
+			}
+		}
+	}
+	c.Check(rule, "migrate|sum file read whole, no bounded reads", token.NoPos, n == 0 && whole && readers >= 1, "%d bounded reads in sql/migrate; readHashFile reads the file whole: %v (io.ReadAll calls in the package: %d)", n, whole, readers)
+}
+
+func constantInt64(v constant.Value) (int64, bool) {
+	if v.Kind() != constant.Int {
+		return 0, false
+	}
+	return constant.Int64Val(v)
 }
